@@ -1,6 +1,7 @@
 package sim
 
 import (
+	"fmt"
 	"time"
 
 	cs "github.com/tendermint/tendermint/consensus"
@@ -954,4 +955,164 @@ func (n *Net) RecipeRelockAttack() string {
 		return "c2-decided-A;c1-UNLOCKED-by-stale-polka"
 	}
 	return "relock-without-decision"
+}
+
+// RecipeCommitThenRoundSkip: a correct node (the victim) learns +2/3 precommits
+// for block B in round r before it has B (it waits in the commit step), while
+// the other correct nodes see only 2/3-any precommits, time out and prevote in
+// round r+1.  Those round r+1 prevotes reach the victim before B does; the
+// others then receive the remaining round-r precommits and decide from round r.
+// Nothing here needs a faulty validator to lie: its precommit is only slow
+// towards the others.  After synchrony the victim must still decide.
+func (n *Net) RecipeCommitThenRoundSkip() string {
+	if len(n.Order) < 3 {
+		return "n/a"
+	}
+	lo, hi := n.MinMaxHeight()
+	if lo != hi {
+		return "heights-differ"
+	}
+	h := hi
+	if !n.startRound(h) {
+		return "cannot-start-round"
+	}
+	victim := n.Order[n.R.Intn(len(n.Order))]
+	round := n.Nodes[victim].CS.GetRoundState().Round
+	for _, i := range n.Order {
+		if n.Nodes[i].CS.GetRoundState().Round != round {
+			return "rounds-differ"
+		}
+	}
+	prop := n.ProposerAt(n.Nodes[victim], round)
+	if prop == victim {
+		return "victim-is-proposer"
+	}
+	others := []int{}
+	for _, i := range n.Order {
+		if i != victim {
+			others = append(others, i)
+		}
+	}
+	if n.IsFaulty[prop] {
+		kb := n.ByzBlock(n.Nodes[others[0]], prop, round, 5, "")
+		if kb == nil {
+			return "byz-cannot-build"
+		}
+		msgs := n.ProposalMsgs(prop, kb, h, round, -1)
+		for _, i := range others {
+			n.Send(prop, i, msgs...)
+		}
+	}
+	// A. proposal and parts to the others only
+	n.DeliverWhere(2000, func(e *Envelope) bool { return isProposalOrPart(e) && e.To != victim })
+	rso := n.Nodes[others[0]].CS.GetRoundState()
+	if rso.ProposalBlock == nil || rso.ProposalBlockParts == nil {
+		return "no-proposal-block"
+	}
+	bid := types.BlockID{Hash: rso.ProposalBlock.Hash(), PartSetHeader: rso.ProposalBlockParts.Header()}
+	vals := rso.Validators
+	now := time.Now()
+	// faulty validators prevote B towards everybody; their precommit for B goes out too but is slow towards the others
+	for _, g := range n.Faulty {
+		if n.ValIndex(vals, g) < 0 {
+			continue
+		}
+		pv := n.SignVote(vals, g, tmproto.PrevoteType, h, round, bid, now)
+		pc := n.SignVote(vals, g, tmproto.PrecommitType, h, round, bid, now)
+		for _, j := range n.Order {
+			n.Send(g, j, &cs.VoteMessage{Vote: pv}, &cs.VoteMessage{Vote: pc})
+		}
+	}
+	// the victim has no proposal: propose timeout -> prevote nil
+	if rs := n.Nodes[victim].CS.GetRoundState(); rs.Step == cstypes.RoundStepPropose {
+		n.FireTimeout(victim)
+	}
+	// all prevotes of this round to everybody
+	n.DeliverWhere(4000, func(e *Envelope) bool {
+		v, ok := isVote(e, tmproto.PrevoteType)
+		return ok && v.Height == h && v.Round == round
+	})
+	for _, i := range others {
+		if rs := n.Nodes[i].CS.GetRoundState(); rs.Height != h || rs.Round != round || rs.Step < cstypes.RoundStepPrecommit || rs.LockedBlock == nil {
+			return "others-did-not-lock"
+		}
+	}
+	// the victim saw the polka but has no block: prevote wait -> precommit nil
+	if t, p := n.Nodes[victim].Ticker.Pending(); p && t.Step == cstypes.RoundStepPrevoteWait {
+		n.FireTimeout(victim)
+	}
+	if rs := n.Nodes[victim].CS.GetRoundState(); rs.Step < cstypes.RoundStepPrecommit {
+		return "victim-did-not-precommit"
+	}
+	// B. precommits: everything to the victim; to each other node only as much as keeps B at <= 2/3
+	n.DeliverWhere(4000, func(e *Envelope) bool {
+		v, ok := isVote(e, tmproto.PrecommitType)
+		return ok && v.Height == h && v.Round == round && e.To == victim
+	})
+	rsv := n.Nodes[victim].CS.GetRoundState()
+	if rsv.Height != h || rsv.Step != cstypes.RoundStepCommit || rsv.ProposalBlock != nil {
+		return "victim-not-waiting-in-commit"
+	}
+	total := vals.TotalVotingPower()
+	for _, o := range others {
+		opk, _ := n.Nodes[o].PV.GetPubKey()
+		_, ov := vals.GetByAddress(opk.Address())
+		if ov == nil {
+			return "other-not-validator"
+		}
+		forB := ov.VotingPower
+		n.DeliverWhere(4000, func(e *Envelope) bool {
+			v, ok := isVote(e, tmproto.PrecommitType)
+			if !ok || v.Height != h || v.Round != round || e.To != o || n.IsFaulty[e.From] {
+				return false
+			}
+			if len(v.BlockID.Hash) == 0 {
+				return true
+			}
+			_, val := vals.GetByAddress(v.ValidatorAddress)
+			if val == nil || (forB+val.VotingPower)*3 > total*2 {
+				return false
+			}
+			forB += val.VotingPower
+			return true
+		})
+		if t, p := n.Nodes[o].Ticker.Pending(); !p || t.Step != cstypes.RoundStepPrecommitWait {
+			return "other-not-in-precommit-wait"
+		}
+	}
+	// C. the others time out, enter round r+1 and prevote (their locked block)
+	for _, o := range others {
+		n.FireTimeout(o)
+		if rs := n.Nodes[o].CS.GetRoundState(); rs.Round == round+1 && rs.Step == cstypes.RoundStepPropose {
+			n.FireTimeout(o)
+		}
+	}
+	for _, g := range n.Faulty {
+		if n.ValIndex(vals, g) < 0 {
+			continue
+		}
+		pv := n.SignVote(vals, g, tmproto.PrevoteType, h, round+1, types.BlockID{}, now)
+		n.Send(g, victim, &cs.VoteMessage{Vote: pv})
+	}
+	// D. the round r+1 prevotes reach the victim before the block does
+	got := n.DeliverWhere(4000, func(e *Envelope) bool {
+		v, ok := isVote(e, tmproto.PrevoteType)
+		return ok && v.Height == h && v.Round == round+1 && e.To == victim
+	})
+	if got == 0 {
+		return "no-next-round-prevotes"
+	}
+	// E. the others now receive the remaining round-r precommits and decide from round r
+	n.DeliverWhere(4000, func(e *Envelope) bool {
+		v, ok := isVote(e, tmproto.PrecommitType)
+		return ok && v.Height == h && v.Round == round && e.To != victim
+	})
+	decided := 0
+	for _, o := range others {
+		if n.Nodes[o].Blocks.Height() >= h {
+			decided++
+		}
+	}
+	rsv = n.Nodes[victim].CS.GetRoundState()
+	return fmt.Sprintf("done(others-decided=%v,victim-step=%v,victim-round-moved=%v)", decided == len(others), rsv.Step, rsv.Round != round)
 }
